@@ -440,20 +440,58 @@ func main() {
 		die("reader.buf not found")
 	}
 	fmt.Fprintf(&out, "def readerBufSize : Nat := %s\n", bufSize)
-	// retry bound of fill: `for i := K; i > 0; i--`
+	// retry bound of fill: the number of iterations of the counted loop around
+	// the Read call, whichever way it counts
 	retry := ""
 	ast.Inspect(st.funcDecl("reader", "fill"), func(n ast.Node) bool {
-		if f, ok := n.(*ast.ForStmt); ok && f.Init != nil {
-			if as, ok := f.Init.(*ast.AssignStmt); ok {
-				if tv, ok := st.info.Types[as.Rhs[0]]; ok && tv.Value != nil {
-					retry = tv.Value.ExactString()
+		f, ok := n.(*ast.ForStmt)
+		if !ok || f.Init == nil || f.Cond == nil || f.Post == nil {
+			return true
+		}
+		hasRead := false
+		ast.Inspect(f.Body, func(m ast.Node) bool {
+			if c, ok := m.(*ast.CallExpr); ok {
+				if sel, ok := c.Fun.(*ast.SelectorExpr); ok && sel.Sel.Name == "Read" {
+					hasRead = true
 				}
 			}
+			return true
+		})
+		as, ok1 := f.Init.(*ast.AssignStmt)
+		cond, ok2 := f.Cond.(*ast.BinaryExpr)
+		post, ok3 := f.Post.(*ast.IncDecStmt)
+		if !hasRead || !ok1 || !ok2 || !ok3 || len(as.Rhs) != 1 {
+			return true
+		}
+		val := func(e ast.Expr) (int64, bool) {
+			if tv, ok := st.info.Types[e]; ok && tv.Value != nil {
+				return constant.Int64Val(tv.Value)
+			}
+			return 0, false
+		}
+		a, okA := val(as.Rhs[0])
+		bnd, okB := val(cond.Y)
+		if !okA || !okB {
+			return true
+		}
+		var cnt int64 = -1
+		switch {
+		case post.Tok == token.DEC && cond.Op == token.GTR:
+			cnt = a - bnd
+		case post.Tok == token.DEC && cond.Op == token.GEQ:
+			cnt = a - bnd + 1
+		case post.Tok == token.INC && cond.Op == token.LSS:
+			cnt = bnd - a
+		case post.Tok == token.INC && cond.Op == token.LEQ:
+			cnt = bnd - a + 1
+		}
+		if cnt >= 0 {
+			retry = fmt.Sprint(cnt)
 		}
 		return true
 	})
 	if retry == "" {
-		die("retry bound of fill not found")
+		die("retry bound of fill not found: no counted loop with constant bounds around the Read call")
 	}
 	fmt.Fprintf(&out, "def readerRetry : Nat := %s\n", retry)
 	// atou length bound on 64 bit: the largest constant compared with l
